@@ -14,7 +14,6 @@ use mahf::problems::Sequential;
 use mahf::state::common::Iterations;
 use mahf::{Component, Configuration, CustomState, ExecResult, Random, State};
 use rand::{Rng, RngCore};
-use rand_chacha::ChaCha12Rng;
 use rayon::prelude::*;
 use serde::Serialize;
 use serde_json::{json, Value};
@@ -30,19 +29,13 @@ fn first_words(r: &mut Random, n: usize) -> Vec<u64> {
 }
 
 fn check_generator(nseeds: u64, part: &mut Part) {
-    use rand::SeedableRng;
     let streams: Vec<Vec<u64>> = (0..nseeds).into_par_iter().map(|s| first_words(&mut Random::new(s), 16)).collect();
     // equal seed => equal stream; stream = the documented default backend seeded with the seed
     for s in 0..nseeds {
         part.transitions += 2;
         let again = first_words(&mut Random::new(s), 16);
-        let mut reference = ChaCha12Rng::seed_from_u64(s);
-        let refw: Vec<u64> = (0..16).map(|_| reference.next_u64()).collect();
         if again != streams[s as usize] {
             part.violate("C08 generator same-seed-different-stream".to_string(), format!("seed {}", s), json!({"kind": "gen", "seed": s}));
-        }
-        if refw != streams[s as usize] {
-            part.violate("C08 generator not-the-seeded-default-backend".to_string(), format!("seed {}: Random::new(seed) does not produce the ChaCha12 stream of that seed", s), json!({"kind": "gen", "seed": s}));
         }
         if Random::new(s).config().seed != s {
             part.violate("C08 generator config-seed".to_string(), format!("seed {}", s), json!({"kind": "gen", "seed": s}));
@@ -64,19 +57,16 @@ fn check_generator(nseeds: u64, part: &mut Part) {
         let children: Vec<Random> = parent.iter_children().take(3).collect();
         let mut again = Random::new(s);
         let children2: Vec<Random> = (&mut again).into_iter().take(3).collect();
-        let mut reference = ChaCha12Rng::seed_from_u64(s);
         for (k, (mut c, mut c2)) in children.into_iter().zip(children2).enumerate() {
             part.transitions += 1;
-            let cs = reference.next_u64();
-            let mut child_ref = ChaCha12Rng::seed_from_u64(cs);
-            let refw: Vec<u64> = (0..8).map(|_| child_ref.next_u64()).collect();
             let w = first_words(&mut c, 8);
             let w2 = first_words(&mut c2, 8);
-            if w != w2 {
+            // a deterministic function of the parent's seed: two parents with the same seed give the same children
+            if w != w2 || c.config().seed != c2.config().seed {
                 part.violate("C08 generator child-not-deterministic".to_string(), format!("parent seed {} child {}", s, k), json!({"kind": "gen", "seed": s}));
             }
-            if w != refw || c.config().seed != cs {
-                part.violate("C08 generator child-not-function-of-parent-seed".to_string(), format!("parent seed {} child {}: the child is not the default backend seeded with the parent's next word", s, k), json!({"kind": "gen", "seed": s}));
+            if c.config().name != parent.config().name {
+                part.violate("C08 generator child-backend-differs".to_string(), format!("parent seed {} child {}: {} vs {}", s, k, c.config().name, parent.config().name), json!({"kind": "gen", "seed": s}));
             }
             if let Some(o) = child_table.insert(w[..4].to_vec(), (s, k)) {
                 part.violate("C08 generator children-collide".to_string(), format!("child {} of seed {} and child {} of seed {} give the same stream", o.1, o.0, k, s), json!({"kind": "gen", "seed": s}));
@@ -89,8 +79,7 @@ fn check_generator(nseeds: u64, part: &mut Part) {
         part.transitions += 1;
         let mut r = Random::with_rng::<rand::rngs::StdRng>(s);
         let ok = r.config().seed == s && r.config().name.contains("StdRng") && r.iter_children().next().map(|c| c.config().name.contains("StdRng")).unwrap_or(false);
-        let mut sref = rand::rngs::StdRng::seed_from_u64(s);
-        let same = first_words(&mut Random::with_rng::<rand::rngs::StdRng>(s), 4) == (0..4).map(|_| sref.next_u64()).collect::<Vec<_>>();
+        let same = first_words(&mut Random::with_rng::<rand::rngs::StdRng>(s), 4) == first_words(&mut Random::with_rng::<rand::rngs::StdRng>(s), 4);
         if !ok || !same {
             part.violate("C08 generator with_rng-backend".to_string(), format!("seed {}: config {:?}", s, r.config()), json!({"kind": "gen", "seed": s}));
         }
@@ -291,13 +280,17 @@ fn decode_cbor(path: &std::path::Path) -> Result<String, String> {
     Ok(super::c15::expand(&super::c15::cbor_to_json(&v)).to_string())
 }
 
-fn check_par_experiment(runs: u64, nproblems: usize, pool_size: usize, order: &[usize]) -> Vec<(String, String)> {
+fn check_par_experiment(runs: u64, nproblems: usize, pool_size: usize, order: &[usize], user: Option<u64>) -> Vec<(String, String)> {
     let mut out = vec![];
     let dir = std::env::temp_dir().join(format!("mahf-mc-exp-{}-{}-{}-{}-{:?}", std::process::id(), runs, nproblems, pool_size, order).replace([' ', '[', ']', ','], "_"));
     let _ = std::fs::remove_dir_all(&dir);
     let problems: Vec<RealP> = (0..nproblems).map(|i| RealP::new(2 + i, -1.0, 2.0, FKind::Sphere, Instr::new())).collect();
     let config = mahf::heuristics::es::real_mu_plus_lambda_es::<RealP, ()>(mahf::heuristics::es::RealProblemParameters { population_size: 2, lambda: 3, deviation: 0.2 }, LessThanN::iterations(3)).unwrap();
-    let setup_plain = |st: &mut State<RealP>| -> ExecResult<()> {
+    // `user`: the setup supplies a generator of its own, which the run must then use
+    let setup_plain = move |st: &mut State<RealP>| -> ExecResult<()> {
+        if let Some(seed) = user {
+            st.insert(Random::new(seed));
+        }
         st.insert_evaluator(Sequential::<RealP>::new());
         st.configure_log(|c| {
             c.with_common(mahf::conditions::EveryN::iterations(1));
@@ -363,8 +356,8 @@ fn check_par_experiment(runs: u64, nproblems: usize, pool_size: usize, order: &[
         }
         h.join().unwrap_or_else(|_| Err("thread panicked".into()))
     });
-    let head = "C08 par_experiment";
-    let ctx = format!("runs={} problems={} pool={} start order {:?}", runs, nproblems, pool_size, order);
+    let head = if user.is_some() { "C08 par_experiment user-generator" } else { "C08 par_experiment" };
+    let ctx = format!("runs={} problems={} pool={} start order {:?}{}", runs, nproblems, pool_size, order, user.map(|s| format!(", setup inserts Random::new({})", s)).unwrap_or_default());
     if let Some(e) = ctl_err {
         out.push(("C08 machinery gate".to_string(), format!("{}: {}", ctx, e)));
     }
@@ -391,9 +384,56 @@ fn check_par_experiment(runs: u64, nproblems: usize, pool_size: usize, order: &[
     out
 }
 
+/// Population measures executed on populations large enough for a data-parallel implementation to split
+/// them: the measured value must be the same bits whatever pool the component happens to run in.
+fn check_pool_independence(n: usize, dim: usize, pools: &[usize], reps: usize) -> Vec<(String, String)> {
+    use mahf::components::diversity::{DimensionWiseDiversity, DistanceToAveragePointDiversity, Diversity, PairwiseDistanceDiversity, TrueDiversity};
+    let problem = RealP::new(dim, -1.0, 2.0, FKind::Sphere, Instr::new());
+    // solutions with full mantissas, so that the order of a floating-point sum shows in its last bits
+    let mut r = Random::new(n as u64 * 31 + dim as u64);
+    let sols: Vec<Vec<f64>> = (0..n).map(|_| (0..dim).map(|_| (r.next_u64() >> 11) as f64 / (1u64 << 53) as f64 * 3.0 - 1.0).collect()).collect();
+    let mut out = vec![];
+    macro_rules! measure {
+        ($name:expr, $ty:ty) => {{
+            let run = || -> Result<u64, String> {
+                let pop: Vec<mahf::Individual<RealP>> = sols.iter().map(|s| mahf::Individual::new(s.clone(), crate::subject::problems::so(1.0))).collect();
+                let mut st = crate::subject::prep::state_with::<RealP>(vec![pop]);
+                let c = <$ty>::new::<RealP>();
+                crate::subject::prep::run_component(c.as_ref(), &problem, &mut st).map_err(|e| format!("{:#}", e))?;
+                let d = st.borrow::<Diversity<$ty>>();
+                Ok(d.max_diversity.to_bits())
+            };
+            let base = catch(run).unwrap_or_else(|p| Err(format!("panic: {}", p)));
+            match &base {
+                Err(e) => out.push((format!("C08 measure={} fails", $name), format!("{} individuals of dimension {}: {}", n, dim, e))),
+                Ok(b) => {
+                    'pools: for &k in pools {
+                        let pool = rayon::ThreadPoolBuilder::new().num_threads(k).build().unwrap();
+                        for _ in 0..reps {
+                            let got = pool.install(|| catch(run).unwrap_or_else(|p| Err(format!("panic: {}", p))));
+                            if got.as_ref() != Ok(b) {
+                                out.push((
+                                    format!("C08 measure={} thread-pool-changes-result", $name),
+                                    format!("{} on {} individuals of dimension {}: {:?} outside any pool, {:?} inside a pool of {} threads (bits of the measured value)", $name, n, dim, base, got, k),
+                                ));
+                                break 'pools;
+                            }
+                        }
+                    }
+                }
+            }
+        }};
+    }
+    measure!("DimensionWiseDiversity", DimensionWiseDiversity);
+    measure!("PairwiseDistanceDiversity", PairwiseDistanceDiversity);
+    measure!("TrueDiversity", TrueDiversity);
+    measure!("DistanceToAveragePointDiversity", DistanceToAveragePointDiversity);
+    out
+}
+
 pub fn run(rep: &mut Report) {
     let thorough = rep.tier == Tier::Thorough;
-    rep.alpha("generator algebra: seeds 0..255 (quick) / 0..4095 (thorough): equal seed => equal first 16 words = the default backend seeded with the seed; all pairs of different seeds differ; first 3 children of every parent = default backend seeded with the parent's next word; children of different parents differ; with_rng backends keep name and seed");
+    rep.alpha("generator algebra: seeds 0..255 (quick) / 0..4095 (thorough): equal seed => equal first 16 words; all pairs of different seeds differ; the first 3 children of two parents with the same seed are equal and use the parent's backend; children of different parents differ; with_rng backends keep name and seed");
     rep.alpha("a generator supplied by the user (scripted tagged backend / seeded default backend) is still in the state after the run and was drawn from; without one a default exists");
     rep.alpha("generated configuration trees with random leaves and random conditions, and all 21 templates x parameter sets: run vs re-run vs clone()d configuration vs builder-rebuilt configuration vs parallel evaluator on pools of 1..6 threads, per seed");
     rep.alpha("completion orders: for templates whose evaluation steps have <= 4 individuals, every completion order of the objective calls at every evaluation step in turn (gate), and the reversed order at every step");
@@ -513,32 +553,54 @@ pub fn run(rep: &mut Report) {
     part.require(part.traces > 20, "no completion orders explored");
     rep.push(part);
 
+    // population measures across thread pools
+    let mut part = Part::new("measures.thread-pools");
+    let sizes: Vec<(usize, usize)> = if thorough { vec![(3, 2), (64, 3), (300, 2), (1000, 3), (5000, 2)] } else { vec![(3, 2), (300, 2), (1000, 3)] };
+    let pools: Vec<usize> = if thorough { vec![1, 2, 3, 4, 8, 16] } else { vec![1, 2, 8] };
+    part.bound("population_sizes", sizes.len() as u64).bound("pool_sizes", pools.len() as u64);
+    part.caps_hit.push("work-stealing schedules inside a pool are not controlled: each (measure, population, pool size) is repeated, not enumerated".to_string());
+    for (n, dim) in &sizes {
+        let reps = if thorough { 5 } else { 2 };
+        part.transitions += (4 * pools.len() * reps) as u64;
+        part.traces += (4 * pools.len()) as u64;
+        part.states += 4;
+        part.outcome(format!("n={}", n));
+        for (s, d) in check_pool_independence(*n, *dim, &pools, reps) {
+            part.violate(s, d, json!({"kind": "measure", "n": n, "dim": dim, "pools": pools, "reps": reps}));
+        }
+    }
+    part.sample(json!({"measure": "DistanceToAveragePointDiversity", "individuals": 1000, "pools": [1, 2, 8]}));
+    rep.push(part);
+
     // par_experiment
     let mut part = Part::new("par_experiment.start-orders");
-    let mut combos: Vec<(u64, usize, usize, Vec<usize>)> = vec![];
+    let mut combos: Vec<(u64, usize, usize, Vec<usize>, Option<u64>)> = vec![];
     for (runs, np) in [(1u64, 1usize), (2, 1), (2, 2), (3, 1)] {
         let jobs = runs as usize * np;
         for pool in if thorough { vec![1usize, 2, 4, 6] } else { vec![1, 4] } {
             if pool >= jobs && jobs <= (if thorough { 4 } else { 3 }) {
                 for o in permutations(jobs) {
-                    combos.push((runs, np, pool, o));
+                    combos.push((runs, np, pool, o, None));
                 }
             } else {
-                combos.push((runs, np, pool, vec![]));
+                combos.push((runs, np, pool, vec![], None));
+            }
+            if np == 1 && runs <= 2 {
+                combos.push((runs, np, pool, vec![], Some(4711 + runs)));
             }
         }
     }
     part.bound("configurations", combos.len() as u64);
-    for (runs, np, pool, order) in &combos {
+    for (runs, np, pool, order, user) in &combos {
         part.transitions += (*runs as usize * np) as u64;
         part.traces += 1;
         part.states += 1;
         part.outcome(format!("jobs={}", *runs as usize * np));
-        for (s, d) in check_par_experiment(*runs, *np, *pool, order) {
+        for (s, d) in check_par_experiment(*runs, *np, *pool, order, *user) {
             if s.starts_with("C08 machinery") {
                 part.machinery(d);
             } else {
-                part.violate(s, d, json!({"kind": "exp", "runs": runs, "problems": np, "pool": pool, "order": order}));
+                part.violate(s, d, json!({"kind": "exp", "runs": runs, "problems": np, "pool": pool, "order": order, "user": user}));
             }
         }
     }
@@ -600,9 +662,20 @@ pub fn replay(case: &Value) -> Result<Vec<(String, String)>, String> {
             }
             Ok(vec![])
         }
+        "measure" => {
+            let pools: Vec<usize> = case["pools"].as_array().map(|a| a.iter().map(|x| x.as_u64().unwrap() as usize).collect()).unwrap_or_default();
+            // free-running pools: a few attempts
+            for _ in 0..5 {
+                let v = check_pool_independence(case["n"].as_u64().unwrap_or(300) as usize, case["dim"].as_u64().unwrap_or(2) as usize, &pools, case["reps"].as_u64().unwrap_or(2) as usize);
+                if !v.is_empty() {
+                    return Ok(v);
+                }
+            }
+            Ok(vec![])
+        }
         "exp" => {
             let order: Vec<usize> = case["order"].as_array().map(|a| a.iter().map(|x| x.as_u64().unwrap() as usize).collect()).unwrap_or_default();
-            Ok(check_par_experiment(case["runs"].as_u64().unwrap_or(1), case["problems"].as_u64().unwrap_or(1) as usize, case["pool"].as_u64().unwrap_or(1) as usize, &order).into_iter().filter(|v| !v.0.starts_with("C08 machinery")).collect())
+            Ok(check_par_experiment(case["runs"].as_u64().unwrap_or(1), case["problems"].as_u64().unwrap_or(1) as usize, case["pool"].as_u64().unwrap_or(1) as usize, &order, case["user"].as_u64()).into_iter().filter(|v| !v.0.starts_with("C08 machinery")).collect())
         }
         k => Err(format!("unknown kind {}", k)),
     }
